@@ -475,6 +475,215 @@ def check(ctx):
         elif which == "erm":
             reqs.append({"op": "erm", "a": float_bits(par), "cols": enc_flt([[float(v) for v in col] for col in xe])})
             metas.append(("erm", case, r3))
+    # ---- the smallest samples: ONE path and two paths (also three in the random part), measured through the MODULE together with a
+    # non-zero target of every admissible kind: a Python float, a Python int, a 0-dim tensor, one value per column (shape (*)), a
+    # row (shape (1, *)) and one value per path (shape (N, *)); positional or keyword, module or a deep copy of it, float64 and
+    # float32.  The sample whose risk is asked for is the P&L input - target:
+    #   * rho(input, target) has the trailing shape and is exactly rho(input - target) (and the functional form of input - target)
+    #   * bounds of the P&L: -max - low <= rho, rho >= -mean - low, rho <= -min (low = 1/(4 lam) for quadratic CVaR, else 0; for
+    #     quadratic CVaR rho <= -min - low is reported under the known finding on narrow samples - a one-path sample is narrow -
+    #     and under its own key otherwise)
+    #   * cash invariance through the position AND through the liability: rho(input + c, target) = rho - c, rho(input, target + c)
+    #     = rho + c
+    #   * monotone through the liability: a smaller liability on every path never raises the risk; a liability larger by at least
+    #     1 on every path raises it by at least 1
+    #   * ES does not increase up to the level 1 (given as the float 1.0 and as the int 1: the same level), entropic risk does not
+    #     decrease in the risk aversion; convexity under mixing of two positions held against the same liability
+    # A deterministic list of (criterion, N, trailing shape, kind of target, dtype) runs on every tier; the values are drawn from g.
+    f32 = torch.float32
+    tiny_kinds = ["number", "int", "zerodim", "column", "row", "path"]
+    tiny = [(w, N_, tr, tk, d_) for w in ("es", "erm", "qcvar", "eloss", "iso") for N_ in (1, 2) for tr in ((), (3,), (2, 2))
+            for tk in tiny_kinds if not (tk == "column" and not tr) for d_ in (dt, f32) if d_ is dt or tr != (2, 2)]
+    for it in range(60 if ctx.tier == "quick" else 1200):
+        tr = g.choice([(), (1,), (2,), (3,), (2, 2), (1, 2)])
+        tiny.append((g.choice(["es", "erm", "qcvar", "qcvar", "eloss", "iso"]), g.choice([1, 1, 2, 3]), tr,
+                     g.choice([k_ for k_ in tiny_kinds if not (k_ == "column" and not tr)]), g.choice([dt, dt, f32])))
+    for which, N, trailing, tk, dtype in tiny:
+        M = 1
+        for t_ in trailing:
+            M *= t_
+        utility = which in ("eloss", "iso")
+        kind = g.choice(["generic", "ties"]) if utility else g.choice(["generic", "generic", "ties", "heavy", "generic_shifted", "const"])
+        cols = gen_sample(g, N=N, M=M, kind=kind)["cols"]
+        zcols = gen_sample(g, N=N, M=M, kind=kind)["cols"]
+        if which == "iso":
+            cols = [[abs(v) + F(1, 8) for v in col] for col in cols]
+            zcols = [[abs(v) + F(1, 8) for v in col] for col in zcols]
+        tlo, thi = (-1, 0) if which == "iso" else (-2, 2)          # isoelastic utility needs input - target > 0
+
+        def nz():
+            v = g.dy(tlo, thi, 2)
+            return v if v != 0 else F(-1, 4)
+        if tk == "int":
+            t0 = F(g.choice([-1] if which == "iso" else [-2, -1, 1, 2]))
+            tq = [[t0] * N for _ in range(M)]
+        elif tk in ("number", "zerodim"):
+            t0 = nz()
+            tq = [[t0] * N for _ in range(M)]
+        elif tk in ("column", "row"):
+            tq = [[nz()] * N for _ in range(M)]
+        else:
+            tq = [[nz() for _ in range(N)] for _ in range(M)]
+        if which == "es":
+            par = g.choice([0.1, 0.5, 0.75, 0.99, 1.0, 1, 1 / N])
+        elif which == "erm":
+            par = g.choice([1 / 64, 0.25, 1.0, 8.0])
+        elif which == "qcvar":
+            par = g.choice([1.0, 2.0, 10.0, 64.0])
+        elif which == "eloss":
+            par = g.choice([0.25, 1.0, 2.0])
+        else:
+            par = g.choice([1.0, 0.5, 0.25])
+        copied, keyword = g.chance(0.3), g.chance(0.5)
+        c = g.dy(-2, 2, 2) if not utility else F(0)
+        c = c if (c != 0 or utility) else F(3, 4)
+        ds = [[(g.dy(0, 1, 3) if g.chance(0.7) else F(0)) for _ in range(N)] for _ in range(M)]
+        lam_t = g.choice([F(1, 2), F(1, 4), F(3, 4)])
+        eff = [[a_ - b_ for a_, b_ in zip(cols[m], tq[m])] for m in range(M)]           # the P&L samples whose risk is asked for
+        zeff = [[a_ - b_ for a_, b_ in zip(zcols[m], tq[m])] for m in range(M)]
+        meff = [[lam_t * a_ + (1 - lam_t) * b_ for a_, b_ in zip(eff[m], zeff[m])] for m in range(M)]
+        scale = max(1.0, max(abs(float(v)) for col in cols + zcols + eff + zeff for v in col))
+
+        def TT(cs, shape=None):
+            return torch.tensor([[float(cs[m][i]) for m in range(M)] for i in range(N)], dtype=dtype).reshape(shape or ((N,) + trailing))
+        X, Z, D = TT(cols), TT(zcols), TT(ds)
+        if tk in ("number", "int"):
+            target = int(tq[0][0]) if tk == "int" else float(tq[0][0])
+        elif tk == "zerodim":
+            target = torch.tensor(float(tq[0][0]), dtype=dtype)
+        elif tk == "column":
+            target = TT(tq)[0].clone()
+        elif tk == "row":
+            target = TT(tq)[:1].clone()
+        else:
+            target = TT(tq)
+        case = {"which": which + "_tiny", "N": N, "trailing": list(trailing), "dtype": str(dtype), "par": repr(par), "target": tk,
+                "keyword": keyword, "copied": copied, "kind": kind, "cols": enc_rat(cols), "targets": enc_rat(tq), "z": enc_rat(zcols),
+                "d": enc_rat(ds), "c": rat_str(c), "t": rat_str(lam_t)}
+        ctx.case(case, True, tag=f"{which}_tiny:N={N}")
+        ctx.stats[f"tiny-target={tk}"] += 1
+        ctx.traces += 1
+        mod = getattr(nn, MODULES[which])(par)
+        if copied:
+            mod = copy.deepcopy(mod)
+
+        def rho(t, tg, m_=None):
+            with torch.no_grad():
+                return ((m_ or mod)(t, target=tg) if keyword else (m_ or mod)(t, tg)).to(torch.float64)
+        try:
+            PL = X - target
+            r_t = rho(X, target)
+            with torch.no_grad():
+                r_pl = mod(PL).to(torch.float64)
+                r_fn = make_crit(nn, fnl, which, par, "functional")(PL).to(torch.float64)
+            if tuple(r_t.shape) != trailing or tuple(PL.shape) != tuple(X.shape):
+                ctx.fail("the risk of a sample of shape (N, *) measured against a target does not have the trailing shape (*)", case,
+                         key=f"{which}:tiny:output-shape", detail={"shape": list(r_t.shape)})
+                continue
+            r_better = rho(X, target - D)                       # a smaller liability on every path
+            r_worse = rho(X, target + 1.0 + D) if not utility else r_t      # a liability larger by at least 1 on every path
+            r_z = rho(Z, target)
+            ft = float(lam_t)
+            r_mix = rho(ft * X + (1 - ft) * Z, target)
+            if not utility:
+                r_cx = rho(X + float(c), target)
+                r_ct = rho(X, target + (int(c) if (tk == "int" and c.denominator == 1) else float(c)))
+            if which == "es":
+                r_one = [rho(X, target, nn.ExpectedShortfall(p1)) for p1 in (1.0, 1)]
+            elif which == "erm":
+                a2 = par * g.choice([1.5, 2.0, 8.0])
+                r_a2 = rho(X, target, nn.EntropicRiskMeasure(a2))
+        except Exception as e:  # noqa
+            ctx.fail("a criterion raised on a one-/two-path sample with a target", case, key=f"{which}:tiny:error", detail=repr(e)[:300])
+            continue
+        eps_ = 2.0 ** -52 if dtype is dt else 2.0 ** -23
+        tol = 1e-9 * scale if dtype is dt else 256 * eps_ * (scale + (1 / par if which == "erm" else 0.0))
+        qtol, narrow, slack = tol, False, 0.0
+        kn = "quadratic_cvar:bracket-misses-root"
+        if which == "qcvar":
+            worse = [[v - 1 - d_ for v, d_ in zip(eff[m], ds[m])] for m in range(M)]
+            better = [[v + d_ for v, d_ in zip(eff[m], ds[m])] for m in range(M)]
+            allc = eff + zeff + meff + worse + better
+            qtol = tol + par * (10 * max(qprec(col) for col in allc)) ** 2
+            narrow = any(is_narrow(col, par) for col in allc)
+            # on a narrow sample the library evaluates the objective at the lower end of its bracket up to the bisection's precision
+            # (slope <= 1 there): two different narrow samples are comparable up to that precision (first order), not its square
+            slack = max(qprec(col) for col in allc) if narrow else 0.0
+        if not torch.equal(r_t, r_pl):
+            ctx.fail("the risk measured against a target is not the risk of the P&L input - target: criterion(input, target) != criterion(input - target)",
+                     case, key=f"{which}:tiny:target", detail={"with target": vals(r_t), "of input - target": vals(r_pl)})
+        v_t, v_fn, v_b, v_w, v_z, v_m = vals(r_t), vals(r_fn), vals(r_better), vals(r_worse), vals(r_z), vals(r_mix)
+        relu_ = lambda v: (1e-9 if dtype is dt else 64 * eps_) * max(abs(v), 1e-300 if which == "eloss" else 1.0)   # noqa
+        for j in range(M):
+            col = eff[j]
+            r = v_t[j]
+            if not math.isfinite(r):
+                ctx.fail("the risk of a one-/two-path P&L is not finite", case | {"column": j}, key=f"{which}:tiny:nonfinite", detail={"risk": r})
+                break
+            if abs(v_fn[j] - r) > (relu_(r) if utility else qtol):
+                ctx.fail("the module measured against a target differs from the functional form of the P&L input - target", case | {"column": j},
+                         key=f"{which}:tiny:target-functional", detail={"module": r, "functional": v_fn[j]})
+            if utility:
+                if v_b[j] > r + relu_(r):
+                    ctx.fail("expected-utility loss is not monotone in the liability: a smaller target on every path gives a higher loss",
+                             case | {"column": j}, key=f"{which}:tiny:monotone", detail={"loss": r, "better": v_b[j]})
+                    break
+                if v_m[j] > ft * r + (1 - ft) * v_z[j] + max(relu_(r), relu_(v_z[j])):
+                    ctx.fail("expected-utility loss is not convex under mixing of two positions held against the same liability",
+                             case | {"column": j}, key=f"{which}:tiny:convex", detail={"rx": r, "rz": v_z[j], "rmix": v_m[j], "t": ft})
+                    break
+                continue
+            low = 1 / (4 * par) if which == "qcvar" else 0.0
+            hi_, lo_, mean_ = float(max(col)), float(min(col)), float(sum(col) / N)
+            if r < -hi_ - low - qtol or r < -mean_ - low - qtol or r > -lo_ + qtol:
+                ctx.fail("the risk of a one-/two-path P&L input - target is outside its bounds: below minus the best outcome or minus the mean "
+                         "(lowered by 1/(4 lam) for quadratic CVaR) or above minus the worst outcome", case | {"column": j},
+                         key=f"{which}:tiny:bounds", detail={"risk": r, "max": hi_, "min": lo_, "mean": mean_, "low": low})
+                break
+            if which == "qcvar" and r > -lo_ - low + qtol:
+                ctx.fail("quadratic CVaR of a one-/two-path P&L input - target is above minus the worst outcome - 1/(4 lam)", case | {"column": j},
+                         key=kn if is_narrow(col, par) else "qcvar:tiny:upper-bound", detail={"risk": r, "min": lo_, "low": low})
+                break
+            v_cx, v_ct = vals(r_cx), vals(r_ct)
+            if abs(v_cx[j] - (r - float(c))) > qtol:
+                ctx.fail("cash invariance fails on a one-/two-path sample: cash added to the position does not lower the risk by that amount",
+                         case | {"column": j}, key=f"{which}:tiny:cash", detail={"rho": r, "rho(input + c, target)": v_cx[j], "c": float(c)})
+                break
+            if abs(v_ct[j] - (r + float(c))) > qtol:
+                ctx.fail("cash invariance fails through the liability: rho(input, target + c) != rho(input, target) + c",
+                         case | {"column": j}, key=f"{which}:tiny:cash-target", detail={"rho": r, "rho(input, target + c)": v_ct[j], "c": float(c)})
+                break
+            if v_b[j] > r + qtol + slack:
+                ctx.fail("monotonicity fails through the liability: a smaller target on every path (a pointwise better P&L) has higher risk",
+                         case | {"column": j}, key=f"{which}:tiny:monotone", detail={"rho": r, "better": v_b[j]})
+                break
+            if v_w[j] < r + 1.0 - qtol - slack:
+                ctx.fail("a P&L that is worse by at least 1 on every path (a larger target) is not riskier by at least 1",
+                         case | {"column": j}, key=f"{which}:tiny:worse-by-one", detail={"rho": r, "worse": v_w[j]})
+                break
+            if v_m[j] > ft * r + (1 - ft) * v_z[j] + qtol:
+                ctx.fail("convexity under mixing of two positions held against the same liability fails", case | {"column": j},
+                         key=kn if narrow else f"{which}:tiny:convex", detail={"rx": r, "rz": v_z[j], "rmix": v_m[j], "t": ft})
+                break
+            if which == "es":
+                o_f, o_i = vals(r_one[0])[j], vals(r_one[1])[j]
+                if o_f > r + tol or o_i > r + tol or abs(o_f - o_i) > tol:
+                    ctx.fail("expected shortfall increases with its quantile level up to the level 1 (given as 1.0 and as the int 1)",
+                             case | {"column": j}, key="es:tiny:level", detail={"p": r, "p=1.0": o_f, "p=1 (int)": o_i})
+                    break
+            elif which == "erm" and vals(r_a2)[j] < r - tol:
+                ctx.fail("entropic risk decreases when the risk aversion increases", case | {"column": j, "a2": a2},
+                         key="erm:tiny:risk-aversion", detail={"a": r, "a2": vals(r_a2)[j]})
+                break
+        else:
+            if dtype is dt and which == "es":
+                pn = F(float(par)) * N
+                if not (abs(pn - round(pn)) <= F(1, 10 ** 9) and pn != round(pn)):
+                    reqs.append({"op": "es", "k": math.ceil(par * N), "cols": enc_rat(eff)})
+                    metas.append(("es", case, v_t))
+            elif dtype is dt and which == "erm":
+                reqs.append({"op": "erm", "a": float_bits(par), "cols": enc_flt([[float(v) for v in col] for col in eff])})
+                metas.append(("erm", case, v_t))
     try:
         outs = ctx.driver(reqs)
     except DriverBroken as e:
